@@ -269,3 +269,27 @@ REG.contract('C01', IB, 'InterpreterBase.evaluate_foreach', variant='one-variabl
                              'set_variable': {'raises': ['MesonException']}, 'iter_self': {'returns': Seq(Obj), 'raises': []},
                              'evaluate_codeblock': {'raises': ['ContinueRequest', 'BreakRequest', 'MesonException']}}, floor=6,
              note='foreach with one loop variable (arrays, range()): the iterable is evaluated once; for each element in order the loop variable is bound to the holderified element, then the block runs; continue skips to the next element, break ends the loop')
+
+# ---- the documented variable functions: get_variable / is_variable / unset_variable read or remove exactly the named variable
+IVarS = Struct('Interpreter', 'mesonbuild.interpreter.interpreter:Interpreter', variables=Dict(Str, Obj))
+DROPF = ['decorators typed_pos_args / noKwargs / noArgsFlattening / unholder_return / FeatureNew: the argument shapes are checked before the call (precondition: the shape of args)']
+REG.contract('C01', II, 'Interpreter.func_is_variable', params={'self': IVarS, 'node': Obj, 'args': TupleS(Str), 'kwargs': Obj},
+             ensures=['result == (args[0] in self.variables)'], dropped=DROPF, floor=2, note='is_variable(name): true iff the name is bound; nothing changes')
+REG.contract('C01', II, 'Interpreter.func_unset_variable', params={'self': IVarS, 'node': Obj, 'args': TupleS(Str), 'kwargs': Obj},
+             ensures=['args[0] not in new(self).variables',
+                      '(q in new(self).variables) == (q in self.variables) if q != args[0] else True',
+                      '(new(self).variables[q] is self.variables[q]) if (q != args[0] and q in self.variables) else True'],
+             raises={'InterpreterException': 'args[0] not in self.variables'}, modifies=['self.variables'], ghosts={'q': Str},
+             opaque_fns={'get_close_matches': ([Str, Obj], List(Str))}, dropped=DROPF, floor=3,
+             note='unset_variable(name): an error iff the name is not bound; otherwise exactly that name is removed and every other name keeps its value object')
+REG.contract('C01', II, 'Interpreter.func_get_variable', variant='name', params={'self': IVarS, 'node': Obj, 'args': TupleS(Str, Opt(Obj)), 'kwargs': Obj},
+             ensures=['(result is self.variables[args[0]]) if args[0] in self.variables else True',
+                      f"(len({HOL}) == 1 and {HOL}[0][1] is args[1] and result is {HOL}[0][-1]) if args[0] not in self.variables else len({HOL}) == 0"],
+             raises={'InterpreterException': 'args[0] not in self.variables and args[1] is None'},
+             method_effects={'_holderify': {'returns': Obj, 'raises': []}}, opaque_fns={'get_close_matches': ([Str, Obj], List(Str))}, dropped=DROPF, floor=3,
+             note='get_variable(name[, fallback]): the value object bound to the name; if it is not bound, the (holderified) fallback when one is given — also a falsy one — and an error otherwise; nothing changes')
+REG.contract('C01', II, 'Interpreter.func_set_variable', params={'self': IVarS, 'node': Obj, 'args': TupleS(Str, Obj), 'kwargs': Obj},
+             ensures=[f"len({SV}) == 1 and {SV}[0][1] == args[0] and {SV}[0][2] is args[1] and kw({SV}[0], 'holderify', False) is True"],
+             raises={'InvalidCode': 'True', 'MesonException': 'True'}, exact_raises=False,
+             method_effects={'set_variable': {'raises': ['MesonException']}}, dropped=DROPF, floor=2,
+             note='set_variable(name, value): after the name check, exactly one binding of that name to the (holderified) value')
